@@ -347,6 +347,8 @@ pub struct InstSummary {
     pub poll_calls: Vec<u32>,
     /// 0 = Ok item, 1 = None, 2 = Err
     pub poll_kinds: Vec<u8>,
+    /// (time argument, largest state modulus) of every derivative call (only with `rec_polls`)
+    pub call_args: Vec<(f64, f64)>,
     /// what next() returned, call after call (only when requested)
     pub items: Vec<ItemRec>,
     pub adapter_mismatch_no_fault: bool,
@@ -373,6 +375,9 @@ struct StubShared {
     nested_target: Option<Rc<InstRt>>,
     cur_poll: u64,
     first_fired_poll: Option<u64>,
+    /// record (time argument, largest state modulus) of every call (reference runs)
+    rec_calls: bool,
+    call_args: Vec<(f64, f64)>,
 }
 
 struct Hooks {
@@ -381,13 +386,16 @@ struct Hooks {
 }
 
 impl StubHooks for Hooks {
-    fn on_call(&self, t: f64) -> Option<UserError> {
+    fn on_call(&self, t: f64, ymax: f64) -> Option<UserError> {
         let (inst, call, fail, nested, abort, payload) = {
             let mut s = self.s.borrow_mut();
             s.calls += 1;
             let call = s.calls;
             let abort = call > s.max_calls;
-            let fail = if !abort && s.plan.fails(call) {
+            if s.rec_calls && s.call_args.len() < 100_000 {
+                s.call_args.push((t, ymax));
+            }
+            let fail = if !abort && s.plan.fails(call, t, ymax) {
                 let tag = tag_of(s.inst, call);
                 s.fired.push(tag);
                 watch::note_fired();
@@ -1234,6 +1242,7 @@ fn empty_summary() -> InstSummary {
         builder_inverted: false,
         poll_calls: Vec::new(),
         poll_kinds: Vec::new(),
+        call_args: Vec::new(),
         items: Vec::new(),
         adapter_mismatch_no_fault: false,
         fp: 0,
@@ -1567,6 +1576,8 @@ fn execute_inner(spec: &RunSpec, budgets: &[Budget], opts: &ExecOpts) -> RunResu
             nested_target: None,
             cur_poll: 0,
             first_fired_poll: None,
+            rec_calls: opts.rec_polls,
+            call_args: Vec::new(),
         }));
         let hooks: Rc<dyn StubHooks> = Rc::new(Hooks { s: stub.clone(), ctx: ctx.clone() });
         let iter = if ctx.violated() {
@@ -1659,6 +1670,7 @@ fn execute_inner(spec: &RunSpec, budgets: &[Budget], opts: &ExecOpts) -> RunResu
         sm.not_in_source_chain = o.not_in_source_chain;
         sm.poll_calls = o.poll_calls.clone();
         sm.poll_kinds = o.poll_kinds.clone();
+        sm.call_args = s.call_args.clone();
         sm.items = o.items.clone();
         sm.adapter_mismatch_no_fault = o.adapter_mismatch_no_fault;
         sm.ended_by = if !sm.built {
